@@ -118,6 +118,17 @@ def deps(prog):
         d.append({owner[o] for o in ops if o in owner})
     return d
 
+def value_ancestors(prog):
+    """value index -> list of operand value indices (leaves have none)"""
+    anc = {i: [] for i in range(len(LEAVES))}
+    pos = len(LEAVES)
+    for st in prog:
+        ops = [st[1]] if st[0] in UN + ("sum", "unbind", "index") else [st[1], st[2]]
+        anc[pos] = list(ops)
+        if st[0] == "unbind": anc[pos + 1] = list(ops); pos += 2
+        else: pos += 1
+    return anc
+
 def judge(case):
     sg = harness.load()
     prog = tuple(tuple(s) for s in case["prog"]); rg = case["rg"]
@@ -160,14 +171,18 @@ def judge(case):
                 root.backward(sg.Tensor(g))
             except Exception as e:
                 v("backward-raised", f"{type(e).__name__}: {str(e)[:80]}"); break
-            # reachable tracked ops: ancestors of the root whose result requires grad
-            reach = set(); todo = [root]; fns = set()
+            # reachable tracked ops, from the PROGRAM structure (no private attributes): values that are ancestors of the
+            # root through tracked results; their public grad_fn objects are the functions that must run exactly once
+            anc = value_ancestors(prog)
+            reach = set(); fns = set()
+            todo = [len(vals) - 1]
             while todo:
-                n = todo.pop()
-                if id(n) in reach: continue
-                reach.add(id(n))
-                if n.grad_fn is not None:
-                    fns.add(id(n.grad_fn)); todo += list(n._children) if hasattr(n, "_children") else []
+                k = todo.pop()
+                if k in reach: continue
+                reach.add(k)
+                if vals[k].grad_fn is not None:
+                    fns.add(id(vals[k].grad_fn)); todo += anc[k]
+            reach = {id(vals[k]) for k in reach}
             if set(calls) != fns or any(c != 1 for c in calls.values()):
                 extra = len(set(calls) - fns); miss = len(fns - set(calls)); multi = sum(1 for c in calls.values() if c != 1)
                 v("not-exactly-once", f"{miss} reachable backward functions not invoked, {extra} unreachable invoked, {multi} invoked more than once")
